@@ -709,4 +709,61 @@ def outcome (e : Ep) : Outcome :=
 def success (n : Net) : Bool :=
   n.c.complete && n.s.complete && n.c.delivered > 0 && n.s.delivered > 0
 
+/-! ### the fatal fault patterns known today (findings K1, F11, F12, F44, F45), by WHAT was hit -/
+
+/-- single faults -/
+def knownFatalHit (resume : Bool) (h : Hit) : Bool :=
+  match resume, h.fromClient, h.kind, h.what with
+  | false, true, .drop, .f5a => true    -- K1   first datagram of client flight 5 lost
+  | false, true, .swap, .f5a => true    -- F12  the two datagrams of client flight 5 swapped
+  | false, false, .drop, .f4 => true    -- F11  server flight 4 lost …
+  | false, false, .swap, .f4 => true    -- F11  … or delayed past the client's timeout
+  | false, false, .drop, .fin => true   -- F44  server flight 6 (last flight) lost
+  | false, false, .swap, .fin => true   -- F45  server flight 6 overtaken by application data
+  | true, false, .drop, .rsf => true    -- F11  resumed: the server's flight lost → ClientHello retransmitted
+  | true, false, .swap, .rsf => true    -- F11
+  | true, true, .swap, .ch1 => true     -- F11  resumed: a second ClientHello reaches the server
+  | true, true, .drop, .fin => true     -- F44  resumed: client CCS+Finished (last flight) lost
+  | true, true, .swap, .fin => true     -- F45  resumed: … overtaken by application data
+  | _, _, _, _ => false
+
+def cookiePhase : Label → Bool
+  | .ch0 | .ch1 | .hvr => true
+  | _ => false
+
+/-- F45/F11, second form: two faults in the cookie phase one of which is a reordering (a stale
+ClientHello / HelloVerifyRequest is delivered late) -/
+def knownFatalPair (hits : List Hit) : Bool :=
+  decide ((hits.filter (fun h => cookiePhase h.what)).length ≥ 2) &&
+    hits.any (fun h => h.kind == .swap && cookiePhase h.what)
+
+/-- exactly the union of the known findings -/
+def KnownFatal (resume : Bool) (hits : List Hit) : Bool :=
+  hits.any (knownFatalHit resume) || knownFatalPair hits
+
+/-! ### arbitrary inputs to ONE endpoint (for the safety theorems: any datagram, any time, any order) -/
+
+inductive Input where
+  | dgram (now : Nat) (d : Dgram)
+  | deadline (now : Nat)
+  deriving Repr
+
+def feed (p : Params) (e : Ep) : Input → Ep
+  | .dgram now d => (onDatagram p now e d).e
+  | .deadline now => (onDeadline p now e).e
+
+def reach (p : Params) (e : Ep) (ins : List Input) : Ep := ins.foldl (feed p) e
+
+/-! ### fault patterns for the bounded evaluation -/
+
+def allKinds : List FK := [.drop, .dup, .swap]
+
+/-- every single fault on the first `n` datagrams of both directions -/
+def singleFaults (n : Nat) : List Fault :=
+  [true, false].flatMap fun d => (List.range n).flatMap fun i => allKinds.map fun k => ⟨d, i, k⟩
+
+def pairsOf : List Fault → List (List Fault)
+  | [] => []
+  | f :: fs => (fs.filter (fun g => !(g.fromClient == f.fromClient && g.idx == f.idx))).map (fun g => [f, g]) ++ pairsOf fs
+
 end Gotlcp.Model.Flights
